@@ -81,6 +81,7 @@ def gen_used_query(run, rng):
     if rng.random() < 0.45 or not used_names:
         q['dests'] = 'plates'
     else:
+        q['dest_form'] = rng.choice(['list', 'list', 'tuple', 'iter', 'gen', 'dict_keys'])
         q['dests'] = rng.sample(used_names, rng.randint(1, min(3, len(used_names))))
         # bias: include the source side of some step (solvent containers, stocks) among the destinations
         srcs = sorted(set(x for st in run.steps for x in (st.get('frm'), st.get('solvent_obj')) if x))
@@ -123,6 +124,13 @@ def q_used(run, c):
         kw['timeframe'] = tf
     if dest_arg != "plates" or ex[1]:
         kw['destinations'] = dest_arg
+        # the parameter is typed Iterable: a tuple, a one-shot iterator or a generator are as good as a list
+        form = c.get('dest_form', 'list')
+        if dest_arg != "plates" and form != 'list':
+            objs = list(dest_arg)
+            kw['destinations'] = {'tuple': lambda: tuple(objs), 'iter': lambda: iter(objs), 'gen': lambda: (o for o in objs),
+                                  'dict_keys': lambda: {id(o): o for o in objs}.values()}[form]()
+            run.stats['probe:destinations_as_' + form] += 1
     out = run.call(lambda: R.get_substance_used(W.rsubs[sname], **kw))
     run.stats['obs:get_substance_used'] += 1
     nsteps = b - a
